@@ -11,6 +11,8 @@ import (
 	"flag"
 	"fmt"
 	"math"
+	"math/big"
+	"regexp"
 	"strings"
 
 	"github.com/tdewolff/canvas"
@@ -128,6 +130,55 @@ func genMatrix(r *rng.R) (canvas.Matrix, string, bool) {
 
 // ------------------------------------------------------------------------------------------------ K1
 
+var svgItem = regexp.MustCompile(`^\s*(translate|rotate|scale|matrix)\(([^)]*)\)`)
+
+// ratQ prints a decimal numeral as the exact rational it denotes.
+func ratQ(s string) (string, float64, bool) {
+	r, ok := new(big.Rat).SetString(strings.TrimSpace(s))
+	if !ok || !r.Num().IsInt64() || !r.Denom().IsInt64() {
+		return "", 0, false
+	}
+	f, _ := r.Float64()
+	return cq.Q(r.Num().Int64(), r.Denom().Int64()), f, true
+}
+
+// parseSVGTransform renders the text of Matrix.ToSVG as a list of svgop terms (numbers exact; rotate carries the
+// binary64 cos/sin of its printed angle). ok=false if the text is not a transform list of the four item kinds.
+func parseSVGTransform(s string) (string, bool) {
+	var ops []string
+	for strings.TrimSpace(s) != "" {
+		m := svgItem.FindStringSubmatch(s)
+		if m == nil {
+			return "", false
+		}
+		s = s[len(m[0]):]
+		var qs []string
+		var fs []float64
+		for _, a := range strings.Split(m[2], ",") {
+			q, f, ok := ratQ(a)
+			if !ok {
+				return "", false
+			}
+			qs = append(qs, q)
+			fs = append(fs, f)
+		}
+		switch {
+		case m[1] == "translate" && len(qs) == 2:
+			ops = append(ops, fmt.Sprintf("(STr %s %s)", qs[0], qs[1]))
+		case m[1] == "scale" && len(qs) == 2:
+			ops = append(ops, fmt.Sprintf("(SSc %s %s)", qs[0], qs[1]))
+		case m[1] == "rotate" && len(qs) == 1:
+			sn, cs := math.Sincos(fs[0] * math.Pi / 180.0)
+			ops = append(ops, fmt.Sprintf("(SRot %s %s)", cq.F(cs), cq.F(sn)))
+		case m[1] == "matrix" && len(qs) == 6:
+			ops = append(ops, fmt.Sprintf("(SMat %s)", strings.Join(qs, " ")))
+		default:
+			return "", false
+		}
+	}
+	return "(Some " + cq.List(ops) + ")", true
+}
+
 func matrixCase(r *rng.R, i int, o *out.W) {
 	var a, b canvas.Matrix
 	var fam string
@@ -182,6 +233,8 @@ func matrixCase(r *rng.R, i int, o *out.W) {
 			matL(a.ReflectX()), matL(a.ReflectY()), matL(a.ScaleAbout(sx, sy, x, y)), matL(a.ShearAbout(sx, sy, x, y)),
 			matL(a.ReflectXAbout(x)), matL(a.ReflectYAbout(y)), matL(a.T()), cq.Floats([]float64{a.Det()}),
 			matL(a.Rotate(rot)), matL(a.RotateAbout(rot, x, y))}
+		rt := canvas.Rect{X0: x, Y0: y, X1: x + math.Abs(sx), Y1: y + math.Abs(sy)}.Transform(a)
+		outs = append(outs, cq.Floats([]float64{rt.X0, rt.Y0, rt.X1, rt.Y1}))
 	})
 	if msg != "" {
 		desc["panic"] = msg
@@ -203,8 +256,22 @@ func matrixCase(r *rng.R, i int, o *out.W) {
 		desc["decompose"] = []float64{tx, ty, phi, dsx, dsy, theta}
 		dec = cq.Floats([]float64{tx, ty, dsx, dsy, cp, sp, ct, st})
 	})
-	term := fmt.Sprintf("CK (mkK %s %s %s %s %s %s %s %s %s %s %s %s %s)", cq.Bool(exact), matQ(a), matQ(b), cq.Pt(p.X, p.Y),
-		cq.F(x), cq.F(y), cq.F(sx), cq.F(sy), cq.F(cs), cq.F(sn), cq.List(outs), inv, dec)
+	// ToSVG on a page of height h (0: no flip offset; 10 and 297: as the SVG renderer uses it)
+	h := rng.Pick(r, []float64{0, 0, 10, 297})
+	svg := "None"
+	if msg == "" {
+		var txt string
+		if pm := safe(func() { txt = a.ToSVG(h) }); pm == "" {
+			desc["h"], desc["tosvg"] = h, txt
+			if t, ok := parseSVGTransform(txt); ok {
+				svg = t
+			} else {
+				desc["tosvg_unparsed"] = true
+			}
+		}
+	}
+	term := fmt.Sprintf("CK (mkK %s %s %s %s %s %s %s %s %s %s %s %s %s %s %s)", cq.Bool(exact), matQ(a), matQ(b), cq.Pt(p.X, p.Y),
+		cq.F(x), cq.F(y), cq.F(sx), cq.F(sy), cq.F(cs), cq.F(sn), cq.List(outs), inv, dec, cq.F(h), svg)
 	o.Emit(out.Case{I: i, Fam: fam, Coq: term, Desc: desc})
 }
 
